@@ -310,14 +310,18 @@ class LRUCache(_CacheBase):
         if self._allow_cloudpickle and self.shared:
             value = cloudpickle.dumps(value)
         with self._cache_lock:
-            self._cache_dict[key] = value
-            cache_size = len(self._cache_queue)
-            if cache_size < self.max_size:
+            if key in self._cache_dict:
+                # Update the value of a resident key and mark it as most recently used
+                self._cache_dict[key] = value
+                self._cache_queue.remove(key)
                 self._cache_queue.append(key)
-            else:
+                return
+            if len(self._cache_queue) >= self.max_size:
+                # Evict before inserting such that the size never exceeds `max_size`
                 key_to_evict = self._cache_queue.pop(0)
                 self._cache_dict.pop(key_to_evict)
-                self._cache_queue.append(key)
+            self._cache_dict[key] = value
+            self._cache_queue.append(key)
 
     def __contains__(self, key: Hashable) -> bool:
         """Check if a key is present in the cache."""
